@@ -80,8 +80,43 @@ impl Tab {
         }
         Output::nop()
     }
+    /// Issues the commands through the whole `Out` API: runs of sends of one message go through `broadcast`,
+    /// command lists of odd length are built in a second `Out` and moved over with `append`; everything else
+    /// uses the plain methods. The reference semantics does not care which way a command was issued.
     fn emit(cmds: &[Cmd], o: &mut Out<Self>) {
-        for c in cmds {
+        if cmds.len() % 2 == 1 {
+            let mut tmp: Out<Self> = Out::new();
+            Self::emit_into(cmds, &mut tmp);
+            o.append(&mut tmp);
+        } else {
+            Self::emit_into(cmds, o);
+        }
+    }
+    fn emit_into(cmds: &[Cmd], o: &mut Out<Self>) {
+        let mut i = 0;
+        while i < cmds.len() {
+            if let Cmd::Send(_, m) = &cmds[i] {
+                let mut j = i;
+                let mut dsts = Vec::new();
+                while j < cmds.len() {
+                    match &cmds[j] {
+                        Cmd::Send(d2, m2) if m2 == m => dsts.push(Id::from(*d2 as usize)),
+                        _ => break,
+                    }
+                    j += 1;
+                }
+                if dsts.len() >= 2 {
+                    o.broadcast(&dsts, m);
+                    i = j;
+                    continue;
+                }
+            }
+            Self::emit_one(&cmds[i], o);
+            i += 1;
+        }
+    }
+    fn emit_one(c: &Cmd, o: &mut Out<Self>) {
+        {
             match c {
                 Cmd::Send(d, m) => o.send(Id::from(*d as usize), *m),
                 Cmd::SetTimer(t) => o.set_timer(*t, model_timeout()),
